@@ -83,8 +83,8 @@ type World struct {
 
 	ledger       *ledger
 	handshake    func(*websocket.Config, *http.Request) error // created once, as cmd/main.go does
-	symOf        map[string]string // session uuid -> symbolic session name (differential checks)
-	lastActivity time.Duration     // last non-sync-clock traffic in either direction
+	symOf        map[string]string                            // session uuid -> symbolic session name (differential checks)
+	lastActivity time.Duration                                // last non-sync-clock traffic in either direction
 	gauge0       gauges
 }
 
